@@ -23,6 +23,10 @@ META = dict(
 def tasks(tier):
     q = tier == "quick"
     t = ctrl.ctrl_tasks(tier)
+    # the Armijo line search at any Newton iteration: one Globalized step from an arbitrary in-box
+    # Newton iterate, exact arithmetic (counterexamples replay)
+    for sv, v, c in (("Standard", ["boxed"], []), ("Symmetric", ["lower"], [])) if q else (("Standard", ["boxed"], []), ("Symmetric", ["lower"], []), ("Standard", ["boxed"], ["eq0"]), ("Extended", ["upper"], [])):
+        t.append(dict(module="steps", fn="h_globalized", shape=dict(vars=v, cons=c, solver=sv, max_linesearch=2 if q else 3), opts=dict(nra=True, timeout_ms=60000)))
     t += loop.loop_tasks([dict(policy="DualNorm", cons=["ge"]), dict(policy="ObjectiveFilter", cons=[])], 2 if q else 3)
     for v, c, W, f in [(["boxed", "lower"], ["ge"], 2, "coo"), (["upper", "fixed"], ["ranged"], 2, "csr"), (["boxed"], ["eqb"], 0, "csc")]:
         t.append(dict(module="xform", fn="h_transform", shape=dict(vars=v, cons=c, W=W, fmt=f), opts=dict(exp_window=(-7, 7))))
